@@ -928,7 +928,11 @@ func (state *RuntimeState) checkAuth(w http.ResponseWriter, r *http.Request, req
 					authData.Username = clientName
 				}
 			}
-			if authData.Username != "" {
+			// Only return the certificate identity if it is of a type the
+			// caller asked for (a plain keymaster certificate must not pass
+			// where only IP restricted certificates are accepted).
+			if authData.Username != "" &&
+				(authData.AuthType&requiredAuthType) != 0 {
 				state.logger.Debugf(4, "returning tls cert authinfo")
 				return &authData, nil
 			}
